@@ -174,6 +174,58 @@ func c16AssertOrigin(c *Ctx) {
 			}
 			walk(bo.X)
 		}
+		if !good {
+			// any other form (`assert := false; if !dot { if !exdot { break }; assert = true }`): decide by cases on what
+			// the two conditional consumers return in this iteration, and require that nothing is loop-carried
+			dot := c.SK("SK_Dot")
+			scen := func(dotTaken, exTaken bool) (bool, bool) {
+				r := c.foldWith(f, 0, pinNilTestOfConsumer(dot, !dotTaken), pinNilTestOfConsumer(exdot, !exTaken))
+				lv := r.Val(st.Val)
+				if k, isK := st.Val.(*ssa.Const); isK {
+					lv = constOf(k)
+				}
+				if lv.K != lConst || lv.C.Kind() != constant.Bool {
+					return false, false
+				}
+				return constant.BoolVal(lv.C), true
+			}
+			a, okA := scen(true, false)
+			b2, okB := scen(false, true)
+			carried := false
+			seen := map[ssa.Value]bool{}
+			var walk func(v ssa.Value)
+			walk = func(v ssa.Value) {
+				if seen[v] {
+					return
+				}
+				seen[v] = true
+				if phi, isPhi := v.(*ssa.Phi); isPhi {
+					for _, l := range loops {
+						if phi.Block() == l.Header {
+							carried = true
+						}
+					}
+					for _, e := range phi.Edges {
+						walk(e)
+					}
+				}
+				if bo, isB := v.(*ssa.BinOp); isB {
+					walk(bo.X)
+					walk(bo.Y)
+				}
+				if u, isU := v.(*ssa.UnOp); isU {
+					walk(u.X)
+				}
+			}
+			walk(st.Val)
+			if okA && okB && !a && b2 && !carried {
+				good = true
+			} else if carried {
+				why = "the flag depends on a value carried over from the previous iteration of the member-access loop: one `!.` makes every later `.` of the chain asserting"
+			} else {
+				why = fmt.Sprintf("with `.` consumed the flag is %v (decided=%v), with `!.` consumed it is %v (decided=%v); expected false / true", a, okA, b2, okB)
+			}
+		}
 		c.R.Check(rule, "store#"+itoa(n), c.P.InstrPos(in), good, "Assert must be true exactly when this member access was written with `!.`; "+why)
 	})
 	c.R.Floor(rule, 1)
@@ -997,5 +1049,39 @@ func (c *Ctx) entrySetterRule(rn string, setThisValue *ssa.Function) {
 			}
 		}
 		c.R.Check(rn, fmt.Sprintf("entry-setter:map-nil=%v", isNil), c.P.Pos(setThisValue.Pos()), made == isNil && updOK, fmt.Sprintf("with the data map nil=%v: creates a map=%v (expected %v), stores exactly (key, value) into it on every path=%v", isNil, made, isNil, updOK))
+	}
+}
+
+// pinNilTestOfConsumer pins `consume(kind) == nil` / `!= nil` for the conditional token consumer called with the
+// constant kind (gotToken(SK_Dot) and the like): isNil says whether the consumer returned nil.
+func pinNilTestOfConsumer(kind int64, isNil bool) Pin {
+	return func(v ssa.Value) (constant.Value, bool) {
+		bo, ok := v.(*ssa.BinOp)
+		if !ok || (bo.Op != token.EQL && bo.Op != token.NEQ) {
+			return nil, false
+		}
+		var call *ssa.Call
+		if cl, isC := bo.X.(*ssa.Call); isC && isNilConst(bo.Y) {
+			call = cl
+		} else if cl, isC := bo.Y.(*ssa.Call); isC && isNilConst(bo.X) {
+			call = cl
+		}
+		if call == nil {
+			return nil, false
+		}
+		hit := false
+		for _, a := range call.Call.Args {
+			if k, isK := constIntArg(a); isK && k == kind && typeName(a.Type()) == "SyntaxKind" {
+				hit = true
+			}
+		}
+		if !hit {
+			return nil, false
+		}
+		res := isNil
+		if bo.Op == token.NEQ {
+			res = !isNil
+		}
+		return constant.MakeBool(res), true
 	}
 }
